@@ -927,7 +927,9 @@ func (h *RealtimeHandler) HandleReceipt(ctx context.Context, respond hwebsocket.
 			RequestId: req.RequestId,
 			Code:      hagallpb.ErrorCode_ERROR_CODE_BAD_REQUEST,
 		})
-		return errors.New("zero length receipt value detected")
+		// The submitter has its answer: returning an error here would end the
+		// connection before the answer is written.
+		return nil
 	}
 
 	payload := ncsclient.ReceiptPayload{
@@ -951,7 +953,6 @@ func (h *RealtimeHandler) HandleReceipt(ctx context.Context, respond hwebsocket.
 			RequestId: req.RequestId,
 			Code:      hagallpb.ErrorCode_ERROR_CODE_SERVER_TOO_BUSY,
 		})
-		return errors.New("ReceiptChan full")
 	}
 
 	return nil
